@@ -26,6 +26,7 @@ def run(prog, R, tier="quick", only_rule=None):
     c05c(prog, R)
     c05d(prog, R)
     c05e(prog, R)
+    c05f(prog, R)
 
 
 def dirsync_set(prog):
@@ -325,3 +326,68 @@ LEVEL_TEXT = ("Static must/ordering analysis of the crash-safety protocol on eve
               "publish, publish order of v<N>/current, publish before unlink, durable directory creation. Holds for every "
               "crash point because each execution prefix is a CFG path prefix; it does not decide equality of the "
               "recovered content with a model (needs run-time values).")
+
+
+FLUSHERS = ("std::io::Write::flush", "std::io::BufWriter::flush", "std::io::BufWriter::into_inner")
+AFTER_FLUSH_OK = ("get_mut", "get_ref", "checksum", "drop", "drop_in_place", "inner_mut", "into_inner", "sync_all", "sync_data")
+
+
+def c05f(prog, R, rid="C05.f"):
+    """A file's bytes must have left every user-space buffer when it is fsynced: otherwise the fsync covers a prefix,
+    the tail is written when the BufWriter drops, and a crash after the operation returned loses it."""
+    r = R.rule(rid, "buffered bytes are flushed into the file before it is fsynced; writer wrappers are transparent", "P,G")
+    # (1) crate-local io::Write wrappers delegate flush and write to the wrapped writer
+    n = 0
+    for p, f in sorted(prog.fns.items()):
+        if not p.endswith(" as std::io::Write>::flush") and not p.endswith(" as std::io::Write>::write"):
+            continue
+        which = p.rsplit("::", 1)[1]
+        n += 1
+        inner = [c for c in f.calls if c.spath == "std::io::Write::" + which and
+                 any(o.kind == "param" and o.what == 1 and o.path for o in origins(f, c.args[0]))]
+        ok = bool(inner) and must_pass(f, {c.bb for c in inner})
+        if which == "write" and ok:
+            ok = all(any(o.kind == "param" and o.what == 2 for o in origins(f, c.args[1])) for c in inner) and \
+                all((c.dest or {}).get("l") == 0 for c in inner)
+        r.check(ok, "%s|delegates to the wrapped writer on every success path" % p,
+                "%s of a writer wrapper does not reach the wrapped writer: bytes stay in a user-space buffer (or are dropped) "
+                "while the file is fsynced and published" % which, f.where())
+    if n < 2:
+        r.anchor_missing("crate-local io::Write wrapper impls (found %d, confirmed 2)" % n)
+    # (2) every fsync of a file that is written through a BufWriter is preceded by a flush of that writer, with no write
+    #     in between.  Model (M): sfa::Writer::{finish, into_inner} end with `self.writer.flush()` (sfa 1.0.0 writer.rs).
+    m = 0
+    for p, f in sorted(prog.fns.items()):
+        syncs = [c for c in f.calls_to(A.SYNC_ALL)]
+        if not syncs:
+            continue
+        buffered = [c for c in f.calls if any("BufWriter" in t for t in c.arg_tys)]
+        if not buffered:
+            continue
+        flushes = [c for c in buffered if c.is_to(A.SFA_INTO_INNER, A.SFA_FINISH) or c.spath in FLUSHERS or c.sres.endswith("as std::io::Write>::flush")]
+        for sc in syncs:
+            m += 1
+            fb = {c.bb for c in flushes}
+            ok = bool(fb) and must_pass(f, fb, from_bbs=None, to_bbs=[sc.bb], success_only=False)
+            r.check(ok, "%s|flush / archive-finish of the BufWriter on every path to sync_all" % p,
+                    "the file is fsynced while bytes may still sit in its BufWriter", f.where(sc.bb), str([short(c.sres) for c in flushes]))
+            # nothing is written between the last flush and the fsync
+            late = []
+            for fc in flushes:
+                region = f.reach_after(fc.bb, cut_blocks=fb - {fc.bb}, stop_at=[sc.bb])
+                if sc.bb not in region:
+                    continue
+                back = set()
+                # blocks of the region from which the sync is still reachable
+                for b in region:
+                    if sc.bb in f.reach([b], cut_blocks=fb):
+                        back.add(b)
+                for c in buffered:
+                    mut_access = any("BufWriter" in t and t.startswith("&mut") for t in c.arg_tys)
+                    if mut_access and c.bb in back and c.bb != sc.bb and c.bb not in fb and c.sres.split("::")[-1] not in AFTER_FLUSH_OK:
+                        late.append(short(c.sres))
+            r.check(not late, "%s|nothing is written between the last flush and sync_all" % p,
+                    "bytes are written into the BufWriter after its last flush and before the fsync: %s" % sorted(set(late)), f.where(sc.bb), str(sorted(set(late))))
+    if m < 3:
+        r.anchor_missing("fsync sites of BufWriter-backed files (found %d, confirmed 3)" % m)
+    r.floor(8)
